@@ -117,6 +117,10 @@ void PPPoE::write_serialization(uint8_t* buffer, uint32_t total_sz) {
     if (tags_size_ > 0 || inner_pdu()) {
         payload_length(static_cast<uint16_t>(total_sz - sizeof(header_)));
     }
+    else {
+        // Nothing follows this header
+        payload_length(0);
+    }
     stream.write(header_);
     for (tags_type::const_iterator it = tags_.begin(); it != tags_.end(); ++it) {
         stream.write<uint16_t>(it->option());
